@@ -352,8 +352,104 @@ def term1(ctx, c):
                   "Program.all_sizes_fixed returns %s for statements whose fixed_size flags are %s: the sizing loop %s" %
                   (wrong[0][1], wrong[0][0], "never ends" if wrong[0][1] is False else "stops while a statement is still unsized, which is then laid out with its provisional size"),
                   repo.loc(af, af.node))
-    # TERM-2
+    # TERM-3 every other while loop that assembling can reach
     cg = _cg(ctx)
+    reach3 = cg.reachable_from("Program.process")
+    for q in sorted(reach3):
+        f = cg.funcs.get(q)
+        if f is None or not f.module.rel.startswith("cocoasm/") or "virtualfiles" in f.module.rel or q == "Program.translate_statements":
+            continue
+        for lp in [x for x in ast.walk(f.node) if isinstance(x, ast.While)]:
+            site = "%s:while %s" % (q, U(lp.test)[:40])
+            tvars = {U(x) for x in ast.walk(lp.test) if isinstance(x, (ast.Name, ast.Attribute))}
+            exits = [x for x in ast.walk(lp) if isinstance(x, (ast.Break, ast.Return, ast.Raise))]
+            stores = [x for x in ast.walk(lp) if isinstance(x, (ast.Assign, ast.AugAssign))]
+            chain = [x for x in stores if isinstance(x, ast.Assign) and U(x.targets[0]) in tvars and isinstance(x.value, ast.Call)
+                     and any(U(y) == U(x.targets[0]) or U(y).startswith(U(x.targets[0]) + ".") for y in ast.walk(x.value) if isinstance(y, (ast.Name, ast.Attribute)))]
+            counters = [x for x in stores if isinstance(x, ast.AugAssign)]
+            sets = [x for x in ast.walk(lp) if isinstance(x, ast.Call) and isinstance(x.func, ast.Attribute) and x.func.attr in ("add", "append")]
+            if chain and len(stores) == len(chain) and not exits and not counters and not sets:
+                c.finding(site, "follows a chain of look-ups with nothing to stop a cycle",
+                          "%s repeats `%s` while `%s`: each step looks the next link up from the previous one and nothing records the links already seen, so definitions that refer "
+                          "to each other in a circle keep the assembler in this loop for ever" % (q, U(chain[0])[:60], U(lp.test)[:50]), repo.loc(f, lp))
+            elif counters or sets or exits:
+                c.undecided(site, "loop-termination-not-established", "", repo.loc(f, lp))
+            else:
+                c.undecided(site, "loop-termination-not-established", "", repo.loc(f, lp))
+    # TERM-4 regular expressions applied to source text: an unbounded repetition of a group that itself starts with an unbounded repetition and
+    # can end without consuming anything else ((a+)+, (a+b*)+) matches a run of n characters in 2^(n-1) ways; when the overall match fails
+    # the engine tries them all, so one long identifier stops the assembler
+    import re._parser as _sp
+    import re._constants as _sc
+
+    def can_be_empty(items):
+        for op, av in items:
+            if op in (_sc.MAX_REPEAT, _sc.MIN_REPEAT):
+                if av[0] == 0:
+                    continue
+                if not can_be_empty(list(av[2])):
+                    return False
+            elif op is _sc.SUBPATTERN:
+                if not can_be_empty(list(av[3])):
+                    return False
+            elif op is _sc.BRANCH:
+                if not any(can_be_empty(list(b)) for b in av[1]):
+                    return False
+            elif op is _sc.AT:
+                continue
+            else:
+                return False
+        return True
+
+    def ambiguous(items):
+        """-> text of the first nested repetition of the (X+ Y*)+ kind, or None"""
+        for op, av in items:
+            if op in (_sc.MAX_REPEAT, _sc.MIN_REPEAT):
+                lo, hi, body = av
+                body = list(body)
+                inner = body
+                while len(inner) == 1 and inner[0][0] is _sc.SUBPATTERN:
+                    inner = list(inner[0][1][3])
+                if hi is _sc.MAXREPEAT or (isinstance(hi, int) and hi > 16):
+                    for i_, (op2, av2) in enumerate(inner):
+                        if op2 in (_sc.MAX_REPEAT, _sc.MIN_REPEAT) and (av2[1] is _sc.MAXREPEAT or (isinstance(av2[1], int) and av2[1] > 16)) and av2[0] >= 1 \
+                                and can_be_empty(inner[:i_]) and can_be_empty(inner[i_ + 1:]):
+                            return True
+                r = ambiguous(body)
+                if r:
+                    return r
+            elif op is _sc.SUBPATTERN:
+                r = ambiguous(list(av[3]))
+                if r:
+                    return r
+            elif op is _sc.BRANCH:
+                for b in av[1]:
+                    r = ambiguous(list(b))
+                    if r:
+                        return r
+        return None
+    npat = 0
+    for m in repo.modules.values():
+        if not m.rel.startswith("cocoasm/") or "virtualfiles" in m.rel:
+            continue
+        for nm, node_ in m.assigns.items():
+            if isinstance(node_, ast.Call) and U(node_.func) == "re.compile" and node_.args:
+                pat = try_fold(node_.args[0], ctx.env)
+                if not isinstance(pat, str):
+                    continue
+                npat += 1
+                try:
+                    tree = _sp.parse(pat)
+                except Exception:
+                    c.undecided("regex:%s" % nm, "pattern-not-parsable", pat[:40], m.rel)
+                    continue
+                if ambiguous(list(tree)):
+                    c.finding("regex:%s" % nm, "nested unbounded repetition that can split one run of characters in exponentially many ways",
+                              "%s in %s is %r: a repeated group that begins with a repeated character class and may end there. When the overall match fails, the engine retries "
+                              "every way of splitting the run, 2^(n-1) of them for n characters: one long name makes the assembler hang" % (nm, m.rel, pat), "%s:%d" % (m.rel, node_.lineno))
+                else:
+                    c.ok("regex:%s" % nm, "no ambiguous nested repetition", "%s:%d" % (m.rel, node_.lineno))
+    # TERM-2
     cyc = cg.cycles_from("Program.process")
     for q in cyc:
         f = cg.funcs[q]
@@ -374,6 +470,7 @@ def term1(ctx, c):
                             if any(trail in a and key in a for a in rest):
                                 guarded = True
             dropped = None
+            other_name = None
             for n in ast.walk(fnode):
                 if isinstance(n, ast.If) and isinstance(n.test, ast.Compare) and isinstance(n.test.ops[0], ast.In) and U(n.test.comparators[0]) in params \
                         and n.body and isinstance(n.body[-1], ast.Raise):
@@ -383,7 +480,16 @@ def term1(ctx, c):
                             rest = [U(a) for a in rcall.args[1:]] + [U(k.value) for k in rcall.keywords]
                             if rest and not any(trail in a for a in rest) and any(key in a for a in rest):
                                 dropped = (trail, rest)
-            if guarded:
+                            # the chain is extended, but with another name than the one the test looks for
+                            for a in rest:
+                                m_ = re.search(r"%s \+ [\(\[](\w+),?[\)\]]" % re.escape(trail), a)
+                                if m_ and m_.group(1) != key and not guarded:
+                                    other_name = (trail, key, m_.group(1))
+            if other_name and not guarded:
+                c.finding("recursion:%s" % q, "the chain records %s, the cycle test looks for %s" % (other_name[2], other_name[1]),
+                          "process_mnemonics extends %s with `%s` but rejects a cycle by testing `%s in %s`: the two are different spellings of the file (one carries the directory), so "
+                          "a file that includes itself is not recognised and the recursion only ends in RecursionError" % (other_name[0], other_name[2], other_name[1], other_name[0]), w)
+            elif guarded:
                 c.ok("recursion:%s" % q, "bounded by a visited set / depth check", w)
             elif dropped:
                 c.finding("recursion:%s" % q, "the trail of files being expanded is not passed on (%s)" % dropped[1][0][:40],
